@@ -98,12 +98,61 @@ def collider(rc):
             if not carries:
                 rc.fail(fi, c, f"is_iequivalent compares {meth}(), whose elements {norm(elem)} omit the collider `{node_var}`: the same parent pair "
                         f"colliding at different children compares equal", construct=f"compares {meth}() without collider")
-            # unshielded: both directions absent
-            conds = [norm(t) for t, pol in s.conds]
-            has = [t for t, pol in s.conds for x in ast.walk(t) if isinstance(x, ast.Call) and call_name(x) == "has_edge"]
-            n_has = sum(1 for t, pol in s.conds for x in ast.walk(t) if isinstance(x, ast.Call) and call_name(x) == "has_edge")
-            if n_has < 2:
-                rc.fail(m, s.node, "an immorality requires the two parents to be non-adjacent in BOTH directions", construct="unshielded test")
+            # unshielded: the path condition of the accumulation is (as a truth table over the two edge atoms) "neither direction present"
+            _unshielded(rc, m, s, pair_var)
+    # the sibling producer get_immoralities obeys the same condition
+    gi = repo.resolve_method(dag, "get_immoralities")
+    if gi is not None:
+        for s in sites(gi.node, lambda n: isinstance(n, ast.Call) and call_name(n) in ("add", "append")):
+            pv = None
+            for t, it in s.loops:
+                if isinstance(peel(it), ast.Call) and call_name(peel(it)) == "combinations":
+                    pv = dotted(t)
+            _unshielded(rc, gi, s, pv)
+
+
+def _unshielded(rc, m, s, pair_var):
+    from ..guards import A, And, Not, equivalent, path_formula, show_formula
+    # the two parents: elements of the loop variable over combinations(…, 2) — `pair[0]`, `pair[1]` or a tuple target `x, y`
+    p0 = p1 = None
+    for t, it in s.loops:
+        if isinstance(peel(it), ast.Call) and call_name(peel(it)) == "combinations":
+            if isinstance(t, ast.Name):
+                p0, p1 = f"{t.id}[0]", f"{t.id}[1]"
+            elif isinstance(t, (ast.Tuple, ast.List)) and len(t.elts) == 2:
+                p0, p1 = norm(t.elts[0]), norm(t.elts[1])
+    if p0 is None:
+        raise AnalysisError(f"{m.qual}: cannot find the loop over parent pairs")
+
+    def edge(a, b):
+        if (a, b) == (p0, p1):
+            return A("e01")
+        if (a, b) == (p1, p0):
+            return A("e10")
+        return None
+
+    def atomize(e):
+        if isinstance(e, ast.Call) and call_name(e) == "has_edge" and len(e.args) == 2:
+            return edge(norm(e.args[0]), norm(e.args[1]))
+        if isinstance(e, ast.Compare) and len(e.ops) == 1 and isinstance(e.ops[0], (ast.In, ast.NotIn)):
+            c = e.comparators[0]
+            a = None
+            if isinstance(c, ast.Subscript) and norm(c.value) in ("self", "self.adj", "self.succ", "self._adj", "self._succ"):
+                a = edge(norm(c.slice), norm(e.left))
+            elif isinstance(c, ast.Call) and call_name(c) in ("successors", "neighbors", "get_children") and c.args:
+                a = edge(norm(c.args[0]), norm(e.left))
+            elif isinstance(c, ast.Call) and call_name(c) in ("predecessors", "get_parents") and c.args:
+                a = edge(norm(e.left), norm(c.args[0]))
+            if a is not None:
+                return Not(a) if isinstance(e.ops[0], ast.NotIn) else a
+        return None
+    fm = path_formula(s, atomize)
+    ok = equivalent(fm, And(Not(A("e01")), Not(A("e10"))), extra_atoms=("e01", "e10"))
+    ok = ok[0] if isinstance(ok, tuple) else ok
+    rc.ob(f"{m.qual}: a pair of parents is recorded under {show_formula(fm)}; equivalent to 'no edge in either direction': {bool(ok)}")
+    if not ok:
+        rc.fail(m, s.node, f"{m.qual}: an immorality requires the two parents to be non-adjacent in BOTH directions; the pair is recorded under `{show_formula(fm)}` "
+                "(a shielded collider — a triangle — is counted as a v-structure, or an unshielded one is missed)", construct=f"{m.qual} unshielded test")
 
 
 # ---------------------------------------------------------------------------------------------
